@@ -45,6 +45,7 @@ REROOT = [
     ["collect"],
     ["collect", False],
     ["transfer"],
+    ["transfer", "rot"],  # the materialised table itself has a rename in its history
 ]
 
 
